@@ -106,6 +106,11 @@ func longRunFile(r *rng.R, prefix string, size, shifts int, unprintable bool) st
 	var sb strings.Builder
 	sb.WriteString("package main\n\n")
 	place := r.Intn(6)
+	if place == 3 && size > 20000 {
+		// a loop body is rendered once per element of xs: keep the whole document well below a megabyte (the extracted
+		// renderers build it as a list of bytes)
+		place = 0
+	}
 	for k := 0; k < shifts; k++ {
 		pad := strings.Repeat("~", k)
 		fmt.Fprintf(&sb, "templ %sT%d%s {\n", prefix, k, tgen.Sig)
